@@ -84,6 +84,35 @@ struct Mv
 };
 static_assert(sizeof(Mv) == 8);
 
+// a trivially copyable source whose conversion to the stored type depends on the value category:
+// Handle(Raw&&) adopts the descriptor and resets the source, Handle(const Raw&) only looks at it
+struct Raw
+{
+    std::int32_t fd;
+};
+struct Handle
+{
+    std::int32_t fd = 0;
+    std::int32_t adopted = 0;
+    Handle() = default;
+    Handle(const Raw& r) : fd(r.fd), adopted(0) {}
+    Handle(Raw&& r) noexcept : fd(r.fd), adopted(1) { r.fd = -1; }
+};
+static_assert(std::is_trivially_copyable_v<Raw> && sizeof(Raw) == 4 && sizeof(Handle) == 8);
+
+template <class T, class U>
+inline constexpr bool TRACKS_MOVES = std::is_same_v<U, Mv> || (std::is_same_v<U, Raw> && std::is_same_v<T, Handle>);
+template <class U>
+int moved_count(const U& x)
+{
+    if constexpr (std::is_same_v<U, Mv>)
+        return x.moved;
+    else if constexpr (std::is_same_v<U, Raw>)
+        return x.fd == -1 ? 1 : 0;
+    else
+        return 0;
+}
+
 inline char* arena()
 {
     static char a[1 << 12];
@@ -109,6 +138,15 @@ U make(long val)
         return Wrap{static_cast<std::int32_t>(val)};
     else if constexpr (std::is_same_v<U, Mv>)
         return Mv{static_cast<std::int32_t>(val)};
+    else if constexpr (std::is_same_v<U, Raw>)
+        return Raw{static_cast<std::int32_t>(val)};
+    else if constexpr (std::is_same_v<U, Handle>)
+    {
+        Handle hd;
+        hd.fd = static_cast<std::int32_t>(val & 0xffffffffL);
+        hd.adopted = static_cast<std::int32_t>(val >> 32);
+        return hd;
+    }
     else
         return static_cast<U>(val);
 }
@@ -238,10 +276,10 @@ void run_case(const std::vector<long>& vals, std::size_t n)
     };
     auto collect = [&](auto& c)
     {
-        if constexpr (std::is_same_v<U, Mv>)
+        if constexpr (TRACKS_MOVES<T, U>)
         {
             std::size_t i = 0;
-            for (auto& x : c) moved[i++] = x.moved;
+            for (auto& x : c) moved[i++] = moved_count(x);
             have_moved = true;
         }
     };
@@ -292,10 +330,10 @@ void run_case(const std::vector<long>& vals, std::size_t n)
             for (auto it = s.begin() + 600; it != s.end(); ++it) *it = make<U>(vals[i++]);
         }
         emplace(s.begin() + 600);
-        if constexpr (std::is_same_v<U, Mv>)
+        if constexpr (TRACKS_MOVES<T, U>)
         {
             std::size_t i = 0;
-            for (auto it = s.begin() + 600; it != s.end(); ++it) moved[i++] = it->moved;
+            for (auto it = s.begin() + 600; it != s.end(); ++it) moved[i++] = moved_count(*it);
             have_moved = true;
         }
     }
@@ -305,9 +343,9 @@ void run_case(const std::vector<long>& vals, std::size_t n)
         std::vector<U> s(vals.size());
         for (std::size_t i = 0; i < vals.size(); ++i) s[vals.size() - 1 - i] = make<U>(vals[i]);
         emplace(s.rbegin());
-        if constexpr (std::is_same_v<U, Mv>)
+        if constexpr (TRACKS_MOVES<T, U>)
         {
-            for (std::size_t i = 0; i < vals.size(); ++i) moved[i] = s[vals.size() - 1 - i].moved;
+            for (std::size_t i = 0; i < vals.size(); ++i) moved[i] = moved_count(s[vals.size() - 1 - i]);
             have_moved = true;
         }
     }
